@@ -625,6 +625,7 @@ func init() {
 		} {
 			sb.WriteString("def " + f.lean + "PutArgs : List String := " + LeanStrList(c06PutArgs(f.fd)) + "\n")
 		}
+		sb.WriteString(c06CursorFacts(qu))
 		// Pending / IsEmpty and the expiry loop of replica/partition.go
 		sb.WriteString("def pendingConds : List String := " + LeanStrList(c06IfConds(pend)) + "\n")
 		sb.WriteString("def pendingReturns : List String := " + LeanStrList(c06ReturnExprs(pend)) + "\n")
